@@ -17,7 +17,7 @@ META = {
     "design_ref": "DESIGN.md 4 (C08/C02), design/C08.md",
 }
 
-CLAUSES = ["c02_save_before_emit", "c02_one_signature_per_lifetime", "c02_one_signature_ever", "c08_targets"]
+CLAUSES = ["c02_save_before_emit", "c02_one_signature_per_lifetime", "c02_one_signature_ever", "c02_one_emission_ever", "c08_targets"]
 
 
 def classify(name, evs, fl):
@@ -37,6 +37,7 @@ def main(argv):
         c.finish()
     n, steps = (48, 40) if c.tier == "quick" else (400, 60)
     S.walked(c, "C02", binary, "c02", n, steps, CLAUSES, classify)
+    S.run_scenarios(c, binary, "c02", CLAUSES, classify)
     S.run_witnesses(c, binary, "C02")
     if not proved and not c.violations:
         b = getattr(c, "broken", {"file": "?", "log": ""})
